@@ -1,7 +1,8 @@
 # Per-property harness configuration for ./check. Bounds registered here are the ones
 # that ran clean on the unchanged tree.
 
-AGENT_WITH = ["Havoc/pkg/logr", "Havoc/pkg/common/crypt"]
+AGENT_WITH = ["Havoc/pkg/logr", "Havoc/pkg/common/crypt", "Havoc/pkg/common/parser"]
+SRV_WITH = ["Havoc/pkg/agent"] + AGENT_WITH
 
 CHECKS = {
     "C01": {
@@ -9,7 +10,7 @@ CHECKS = {
             {"pkg": "Havoc/pkg/agent", "with": AGENT_WITH, "entries": ["H_c01_dispatch"], "shards": 16},
             {"pkg": "Havoc/pkg/handlers", "with": ["Havoc/pkg/agent"] + AGENT_WITH, "entries": ["H_c01_request_raw"], "shards": 8},
             {"pkg": "Havoc/pkg/handlers", "with": ["Havoc/pkg/agent"] + AGENT_WITH, "entries": ["H_c01_request_hdr"], "shards": 4},
-            {"pkg": "Havoc/pkg/agent", "with": AGENT_WITH + ["Havoc/pkg/common/parser", "Havoc/pkg/common/parser@lazy"], "entries": ["H_c01_dispatch_lazy"], "shards": 31, "flags": ["-loop-cut", "TaskDispatch=2"]},
+            {"pkg": "Havoc/pkg/agent", "with": AGENT_WITH + ["Havoc/pkg/common/parser@lazy"], "entries": ["H_c01_dispatch_lazy"], "shards": 31, "flags": ["-loop-cut", "TaskDispatch=2"]},
             {"pkg": "Havoc/pkg/agent", "with": AGENT_WITH, "entries": ["H_c01_dispatch_deep"], "shards": 64, "flags": ["-conc-limit", "2", "-time", "240s", "-loop-cut", "TaskDispatch=3"], "disabled": True},
         ],
         "bounds": "TaskDispatch: every command id with a case + one arbitrary other id; body 0..24 arbitrary bytes; state S (3 agents, pivot child, open socket/portfwd).",
@@ -33,10 +34,26 @@ CHECKS = {
         "outside": "concurrent enqueue/check-in (two-thread harness not built in this revision); service Get path",
         "min_completed": 3,
     },
+    "C11": {
+        "groups": [
+            {"pkg": "Havoc/cmd/server", "with": SRV_WITH, "entries": ["H_c11_append", "H_c11_replay", "H_c11_fanout", "H_c11_fault"], "no_native_witness": True, "no_native_replay": True},
+        ],
+        "bounds": "append: 0..3 retained events + one event with arbitrary code / one-shot flag; replay: 0..3 retained events, 0..2 agents with symbolic active flag; fan-out: 1..3 clients, any excluded id, arbitrary event code; fault: 2..3 sends/broadcasts to two clients with a write fault possible at every write.",
+        "outside": "a peer that stalls without error (needs time); websocket framing; concurrent broadcasters",
+        "min_completed": 3,
+    },
+    "C06": {
+        "groups": [
+            {"pkg": "Havoc/cmd/server", "with": SRV_WITH, "entries": ["H_c06_first", "H_c06_window"], "no_native_witness": True, "no_native_replay": True},
+        ],
+        "bounds": "first message = arbitrary Package (event/sub-event any int32; Head.User one of two operators / unknown / empty; Body.Info absent or with User/Password each absent, right string, other string, number, bool, null, object); profile with and without Operators block; one follow-up message.",
+        "outside": "gorilla/websocket, TLS, JSON decoding itself (modelled as: yields an arbitrary well-typed Package), the service endpoint (pkg/service) in this revision",
+        "min_completed": 3,
+    },
     "C09": {
         "groups": [
-            {"pkg": "Havoc/cmd/server", "with": ["Havoc/pkg/agent", "Havoc/pkg/logr", "Havoc/pkg/common/crypt"], "entries": ["H_c09_died", "H_c09_markdead"]},
-            {"pkg": "Havoc/cmd/server", "with": ["Havoc/pkg/agent", "Havoc/pkg/logr", "Havoc/pkg/common/crypt"], "entries": ["H_c09_event"], "shards": 4},
+            {"pkg": "Havoc/cmd/server", "with": SRV_WITH, "entries": ["H_c09_died", "H_c09_markdead"]},
+            {"pkg": "Havoc/cmd/server", "with": SRV_WITH, "entries": ["H_c09_event"], "shards": 4},
         ],
         "bounds": "all forests over 3 registered agents (parent vector), victim any of them; Died/UnlinkFromAll/LinkRemove and the operator mark-dead/alive event.",
         "outside": "SQLite itself (TS_Links is a set-of-pairs model of the statements in pkg/db/links.go); more than 3 agents",
@@ -44,7 +61,7 @@ CHECKS = {
     },
     "C08": {
         "groups": [
-            {"pkg": "Havoc/pkg/agent", "with": ["Havoc/pkg/logr"], "entries": ["H_c08_chain"], "flags": ["-tags", "uf_aes"], "shards": 3},
+            {"pkg": "Havoc/pkg/agent", "with": ["Havoc/pkg/logr", "Havoc/pkg/common/parser"], "entries": ["H_c08_chain"], "flags": ["-tags", "uf_aes"], "shards": 3},
         ],
         "bounds": "chains of 1..3 SMB hops below a direct agent; every agent id with an arbitrary top byte (ids >= 0x80000000 included) and fixed distinct low 24 bits; task = arbitrary command / request id / int argument / byte argument of 0..2 bytes; AES-CTR as uninterpreted per-key stream.",
         "outside": "depth > 3; fully arbitrary ids (thorough tier: target id fully symbolic); upward relay is covered by C05/C01 harnesses with AES as identity",
@@ -87,6 +104,10 @@ LEVELS = {
     },
     "C05": {"text": "Bounded symbolic execution of the real TaskDispatch gate for every command id with symbolic request ids and bodies against an effect recorder; the negative statement (nothing happens for a non-outstanding id) is decided by the solver for all ids and bodies in the bound.",
             "note": "Trusted: go/ssa, gosx, z3; recorder TeamServer, os/net effect stubs; single-package command table transcribed from Command.c."},
+    "C11": {"text": "Bounded symbolic execution of the real event log / replay / fan-out / SendEvent code with the websocket write as a fault-injecting recorder; the fault sequence is a symbolic variable, and a mutex left held after any send is reported by the engine's lock model.",
+            "note": "websocket, JSON encoder and DB are stubs; single-threaded (interleavings of concurrent broadcasters are outside)."},
+    "C06": {"text": "Bounded symbolic execution of the real handleRequest/ClientAuthenticate/EventBroadcast decision logic over an arbitrary first Package (the image of json.Unmarshal), with SHA3 as an injective digest.",
+            "note": "The JSON decoder is modelled by its result type; sockets and timing are outside; service endpoint not covered in this revision."},
     "C09": {"text": "Bounded symbolic execution of the real link bookkeeping (cmd/server Died/UnlinkFromAll/LinkAdd/LinkRemove, TaskDispatch SMB connect/disconnect) from every forest over a 3-agent universe; the forest invariant relating parent pointers, link lists and link rows is asserted after one event (inductive step).",
             "note": "Database = relational model of the four SQL statements in pkg/db/links.go; websocket/JSON stubbed."},
     "C08": {"text": "Bounded symbolic execution of the real PivotAddJob/BuildPayloadMessage wrapping for chains of 1..3 hops, unwrapped by a reference implementation of the Demon's pipe framing with each hop's own key; AES-CTR is an uninterpreted key stream so a layer encrypted under the wrong key cannot decode.",
